@@ -700,10 +700,17 @@ func (f *transformationCallable) Call(argv []reflect.Value) (reflect.Value, erro
 
 	items = arrayify(items)
 
+	// The pattern is evaluated with the copy as context but it can
+	// still reach values outside the copy (through $$ or a variable
+	// bound to the input). Only objects that belong to the copy may
+	// be written to: the caller's data must never change.
+	owned := map[uintptr]bool{}
+	collectMaps(obj, owned)
+
 	for i := 0; i < items.Len(); i++ {
 
 		item := jtypes.Resolve(items.Index(i))
-		if !jtypes.IsMap(item) {
+		if !jtypes.IsMap(item) || !owned[item.Pointer()] {
 			continue
 		}
 
@@ -719,6 +726,27 @@ func (f *transformationCallable) Call(argv []reflect.Value) (reflect.Value, erro
 	}
 
 	return obj, nil
+}
+
+// collectMaps records the identity of every map reachable from v.
+func collectMaps(v reflect.Value, seen map[uintptr]bool) {
+
+	v = jtypes.Resolve(v)
+
+	switch {
+	case jtypes.IsMap(v):
+		if seen[v.Pointer()] {
+			return
+		}
+		seen[v.Pointer()] = true
+		for _, k := range v.MapKeys() {
+			collectMaps(v.MapIndex(k), seen)
+		}
+	case jtypes.IsArray(v):
+		for i := 0; i < v.Len(); i++ {
+			collectMaps(v.Index(i), seen)
+		}
+	}
 }
 
 func (f *transformationCallable) validateArgs(argv []reflect.Value) error {
